@@ -6,6 +6,7 @@ LEVEL = ("bounded symbolic execution of the real code over exact reals; every ob
          "(in)equalities decided by z3 (QF_LRA monomial abstraction of QF_NRA with solver-checked lemma selection); "
          "counterexample candidates are replayed on the unpatched float code before VIOLATION is printed")
 CLAIMED = {
+ "C08": ("per-feature shifts (center), positive affine rescalings (standardize), user weights == pre-multiplied data, use_coslat == sqrt(cos lat) weights, global factor c: the two fits decompose identical (or exactly c-scaled) matrices and all outputs agree / scale as stated - for ALL values of data, shifts, scales, weights, c", "5 C08"),
  "C06": ("fit on data with fully missing rows/columns == fit on the reduced data (term identity), NaN exactly at deleted labels; every isolated-NaN mask and every mask mismatch at transform raises; cross-set NaN samples give the row-deleted pair or an error", "5 C06"),
  "C01": ("decomposed matrix == independent oracle; components orthonormal; scores orthogonal with norms s; explained variance == s^2/(n-1), descending, eigen-relation with the oracle covariance, total variance and ratios; residual orthogonal to retained modes - for ALL data values (EOF, ComplexEOF, HilbertEOF without padding, ExtendedEOF)", "5 C01"),
  "C02": ("container type, names, dims, label sets preserved and value at every label equal to the input symbol through the 2-D round trip and model accessors, over an enumerated layout space", "5 C02"),
